@@ -66,11 +66,20 @@ def gen(seed):
     return spec
 
 
+def directed(tier, base_seed):
+    from .. import stubval
+    for spec in stubval.specs(gen, base_seed, 60 if tier == 'thorough' else 6):
+        yield spec
+
+
 def has_child_faults(spec):
     return any(e['a'] in ('die',) or e['site'] == 'channel' for e in spec['plan'])
 
 
 def run(spec, ctx):
+    if spec.get('stubval'):
+        from .. import stubval
+        return stubval.run(spec, ctx, ID)
     src = W.materialise(spec['world'], ctx.scratch)
     m = W.Model(spec['world'])
     res = core.execute(spec, W.argv(spec['opt'], src))
